@@ -54,7 +54,210 @@ def options_jobs(tier):
     return J
 
 
+NS_LIB = ["src/lib/ares_library_init.c", "src/lib/str/ares_buf.c", "src/lib/str/ares_str.c", "src/lib/inet_net_pton.c",
+          "src/lib/ares_hosts_file.c", "src/lib/dsa/ares_llist.c"]
+
+
+def pton_unwind(n):
+    """loop bounds of inet_net_pton.c / ares_buf scanning for a text of at most n bytes"""
+    return {"ares_inet_net_pton_ipv4.0": n + 1, "ares_inet_net_pton_ipv4.1": n + 1, "ares_inet_net_pton_ipv4.2": n // 2 + 2,
+            "ares_inet_net_pton_ipv4.3": n + 1, "ares_inet_net_pton_ipv4.4": 5, "ares_inet_pton6.0": n + 2,
+            "ares_inet_pton6.1": 17, "getbits.0": n + 1, "strlen.0": n + 2, "ares_buf_tag_fetch_string.0": n + 2,
+            "strtol.0": 8, "memchr.0": n + 2, "ares_buf_consume_charset.0": 71, "ares_buf_consume_charset.1": n + 2,
+            "ares_buf_consume_whitespace.0": n + 2, "ares_buf_consume_until_charset.0": n + 2,
+            "ares_buf_consume_until_charset.1": n + 2, "memcpy.0": max(n + 2, 18), "ares_subnet_match.0": 18}
+
+
+def nameserver_jobs(tier):
+    J = []
+    full = "0123456789abcdef.:%[] x"
+    shapes = []
+    # measured (sat): parse L4 22 s, L6 63 s, L8 144 s; fromstr costs about the same per entry
+    for l in ((4, 6) if tier == "quick" else (4, 6, 8, 9, 10)):
+        shapes.append(("L%d" % l, "", full, l, 0, None))
+    for l in ((4,) if tier == "quick" else (4, 6, 7, 8)):
+        shapes.append(("L%d" % l, "", full.replace(" ", ""), l, 1, None))
+    # deeper bounds with the converter replaced by its contract stub (pton_stub.c; real one: c15_pton_*)
+    for l in ((8, 10) if tier == "quick" else (8, 10, 12)):
+        shapes.append(("stubpton_L%d" % l, "", full, l, 0, None))
+    shapes.append(("stubpton_L8", "", full.replace(" ", ""), 8, 1, None))
+    shapes.append(("stubpton_two_L9", "", full.replace(" ", ""), 9, 1, 4))
+    if tier != "quick":  # two entries: measured 152 s at L5
+        shapes.append(("two_L5", "", full.replace(" ", ""), 5, 1, 2))
+        shapes.append(("two_L7", "", full.replace(" ", ""), 7, 1, 3))
+    # shape-concrete probes of the fixed-size locals: portstr[6], ll_iface[IF_NAMESIZE=16], ipaddr[46]
+    shapes.append(("port_v4", "1.2.3.4:", "0123456789 %x", 7, 0, None))
+    shapes.append(("port_v6", "[::1]:", "0123456789 %x", 7, 0, None))
+    shapes.append(("iface", "[fe80::1]%", "eth0_-.:{}\\\\ ]", 17, 0, None))
+    shapes.append(("iface0", "", "eth019", 0, 2, None))
+    shapes.append(("iface3", "", "eth019", 3, 2, None))
+    shapes.append(("ipaddr_long", "[1:2:3:4:5:6:7:8:9:a:b:c:d:e:f:1:2:3:4:5:6:", "0123456789abcdef:.]", 5, 0, None))
+    for nm, prefix, cs, l, mode, split in shapes:
+        n = len(prefix.replace("\\\\", "\\")) + l
+        u = pton_unwind(n)
+        u.update({"addr_end.0": n + 2, "addr_end.1": n + 2, "addr_end.2": n + 2, "addr_end.3": n + 2, "addr_end.4": n + 2,
+                  "in_set.0": 27, "harness.0": n + 2, "harness.1": n + 2, "harness.2": n + 2, "harness.3": n + 2,
+                  "harness.4": 18, "ares_buf_split.2": 2 if split is None else 3, "ares_buf_split.0": 2, "ares_buf_split.1": 2,
+                  "ares_sconfig_append_fromstr.0": 2 if split is None else 3, "ares_array_destroy.0": 2 if split is None else 3,
+                  "ares_array_insertdata_last.0": 9, "ares_array_insert_last.1": 9, "ares_llist_clear.0": 3,
+                  "ares_sconfig_linklocal.0": 18, "ares_sconfig_linklocal.1": 18})
+        u["memcpy.0"] = max(n + 2, 22)
+        d = ["-DMODE=%d" % mode, "-DL=%d" % l, "-DPREFIX=" + q(prefix), "-DCHARSET=" + q(cs)]
+        real = NS_LIB
+        if split is not None:
+            d.append("-DSPLIT_AT=%d" % split)
+        sup = SUP
+        if nm == "ipaddr_long":
+            d.append("-DPTON_STUB")
+            real = [r for r in NS_LIB if "pton" not in r and "hosts_file" not in r]
+        if nm.startswith("stubpton"):
+            real = [r for r in NS_LIB if "inet_net_pton" not in r]
+            sup = SUP + ["pton_stub.c"]
+            u.update({"pton_common.0": 18, "pton_common.1": 17})
+        u["ares_dns_pton.0"] = 48
+        extra = {}
+        if mode >= 1:
+            # the server list's destructor is ares_free (ares_llist_create(ares_free) in ares_sconfig_append); without the
+            # restriction CBMC case-splits over every void(*)(void*) of the linked TUs (ares_hosts_file.c brings list
+            # destructors that recurse into ares_llist_destroy)
+            extra["instrument"] = [["--restrict-function-pointer", "ares_llist_node_destroy.function_pointer_call.1/ares_free"]]
+        J.append(dict(name="c15_nameserver_%s_%s" % (("parse", "fromstr", "append")[mode], nm), harness="nameserver.c",
+                      defines=d, real=real, support=sup, unwind=18, unwindset=us(u), leak=True, kf_group="c15_nameserver", **extra,
+                      bound="%s on text = '%s' + %d arbitrary bytes of [%s]%s" %
+                            (("parse_nameserver (exact-size buffer)", "ares_sconfig_append_fromstr (ignore_invalid arbitrary)",
+                              "ares_sconfig_append (arbitrary v4/v6 address and ports) with interface")[mode],
+                             prefix, l, cs, "" if split is None else ", separator planted at byte %d" % split)))
+    return J
+
+
+def sortlist_jobs(tier):
+    J = []
+    shapes = []
+    # (name, prefix, charset, L, split, real converter?)   measured: real converter L4 = 167 s / 4.3 GB
+    for l in ((4, 6) if tier == "quick" else (4, 6, 8)):
+        shapes.append(("L%d" % l, "", None, l, None, False))
+    if tier != "quick":
+        shapes.append(("realpton_L4", "", None, 4, None, True))
+    shapes.append(("two_L5", "", None, 5, 2, False))
+    if tier != "quick":
+        shapes.append(("two_L7", "", None, 7, 3, False))
+    # shape-concrete probes: maskstr[16] and the atoi() of a long digit string
+    shapes.append(("mask_num", "1.2.3.4/", "0123456789", 11, None, False))
+    shapes.append(("mask_long", "::1/", "0123456789.", 16, None, False))
+    for nm, prefix, cs, l, split, realpton in shapes:
+        n = len(prefix) + l
+        tok = 1 if split is None else 2
+        u = pton_unwind(n)
+        u.update({"harness.0": n + 2, "harness.1": n + 2, "harness.2": tok + 1, "harness.3": n + 2, "harness.4": n + 2,
+                  "ares_buf_split.2": tok + 1, "ares_buf_split.0": 2, "ares_buf_split.1": 2, "ares_parse_sortlist.0": tok + 1,
+                  "ares_array_destroy.0": tok + 1, "ares_array_insertdata_last.0": 9, "ares_array_insert_last.1": 9,
+                  "vp_realloc.0": 26, "memcpy.0": max(n + 2, 26), "ares_str_isnum.0": n + 2, "strtol.0": n + 2,
+                  "raw_alloc.0": 6, "pton_common.0": 18, "pton_common.1": 17})
+        sizes = "-DVP_SIZES=24,48,%d,32,64" % (n + 1)   # apattern x1/x2, text, array_ref struct/ares_buf, array storage
+        d = ["-DL=%d" % l, "-DPREFIX=" + q(prefix), sizes] + (["-DCHARSET=" + q(cs)] if cs else [])
+        if split is not None:
+            d.append("-DSPLIT_AT=%d" % split)
+        real = NS_LIB[:-1] + ["src/lib/util/ares_math.c", "src/lib/ares_sysconfig_files.c"]
+        sup = SUP
+        if not realpton:
+            real = [r for r in real if "inet_net_pton" not in r]
+            sup = SUP + ["pton_stub.c"]
+        J.append(dict(name="c15_sortlist_%s" % nm, harness="sortlist.c", defines=d, real=real, support=sup,
+                      unwind=18, unwindset=us(u), leak=True, kf_group="c15_sortlist",
+                      bound="ares_parse_sortlist on text = '%s' + %d arbitrary bytes of [%s]%s; previous list present or not; %s" %
+                            (prefix, l, cs or "0-9./:a-f tab", "" if split is None else ", separator (blank or ';') planted at byte %d" % split,
+                             "real inet_net_pton.c" if realpton else "address converter = contract stub pton_stub.c (real one: c15_pton_*)")))
+    return J
+
+
+def pton_jobs(tier):
+    J = []
+    for af, afn in (("AF_INET", "v4"), ("AF_INET6", "v6")):
+        for l in ((3, 5, 7) if tier == "quick" else (3, 5, 7, 8, 9)):
+            u = pton_unwind(l)
+            u.update({"harness.0": l + 2})
+            J.append(dict(name="c15_pton_%s_L%d" % (afn, l), harness="pton.c", defines=["-DL=%d" % l, "-DAF=" + af],
+                          real=["src/lib/ares_library_init.c", "src/lib/inet_net_pton.c", "src/lib/str/ares_str.c"],
+                          support=["vp_rt.c", "valloc.c", "memloops.c", "libc_extra.c"], unwind=18, unwindset=us(u), leak=True,
+                          bound="real ares_inet_pton(%s) on %d arbitrary bytes of [0-9a-fxX.:/] + NUL, exact-size buffers" % (af, l)))
+    return J
+
+
+RL_LIB = ["src/lib/ares_library_init.c", "src/lib/str/ares_buf.c", "src/lib/str/ares_str.c", "src/lib/str/ares_strsplit.c",
+          "src/lib/ares_hosts_file.c", "src/lib/dsa/ares_llist.c", "src/lib/util/ares_math.c", "src/lib/ares_sysconfig_files.c"]
+RL_KEYS = [("domain", 1), ("search", 1), ("lookup", 2), ("hostresorder", 2), ("nameserver", 3), ("sortlist", 4), ("options", 5),
+           ("nameservers", 0), ("#", 0), ("Search", 0)]
+
+
+def resolvline_jobs(tier):
+    J = []
+    rfp = {"instrument": [["--restrict-function-pointer", "ares_llist_node_destroy.function_pointer_call.1/ares_free"]]}
+    v0 = 4 if tier == "quick" else 6
+    # MODE 0: frame property, one symbolic line from an initial / a populated sysconfig
+    for key, own in RL_KEYS:
+        kn = {"#": "comment"}.get(key, key)
+        kd = ["-DKW=" + q(key)]
+        if key == "domain":
+            kd.append("-DSINGLE_DOMAIN")
+        v = v0
+        if key == "options":
+            kd.append("-DNOBLANK")
+            v = 3 if tier == "quick" else 4   # measured: 4 value bytes 150 s
+        if key == "nameserver":
+            kd.append("-DNOSEP")
+        for pre in (0, 1):
+            if own == 0 and pre == 0:
+                continue
+            n = len(key) + 1 + v
+            tok = 1 if key in ("options", "nameserver") else (v + 1) // 2   # tokens a v-byte value can hold
+            if key == "sortlist":
+                # the only symbolic allocation size is the sortlist realloc (1 or 2 entries): case-split allocator
+                kd = [k for k in kd if not k.startswith("-DVP_SIZES")] + ["-DVP_SIZES=24,48,%d,32,64,8,4,3,44" % n]
+            u = pton_unwind(v)   # value-level loops see at most v bytes; line-level loops (keyword + value) use the global bound
+            u.update({"ares_buf_tag_fetch_string.0": n + 1, "ares_buf_consume_whitespace.0": v + 2,
+                      "memchr.0": v + 2, "ares_buf_consume_until_charset.0": v + 2})
+            u.update({"ares_buf_split.2": v + 2, "raw_alloc.0": 10, "ares_buf_split.0": v + 1, "ares_buf_split.1": v + 1,
+                      "ares_buf_split_isduplicate.0": tok + 1, "ares_buf_split_str_array.0": max(tok, 2) + 1,
+                      "ares_free_array.1": max(tok, 2) + 1, "ares_array_destroy.0": max(tok, 2) + 1, "config_lookup.0": tok + 1,
+                      "config_search.0": tok + 1, "ares_sysconfig_set_options.0": tok + 1, "ares_parse_sortlist.0": tok + 1,
+                      "ares_sconfig_append_fromstr.0": tok + 1, "ares_array_insertdata_last.0": 9, "ares_array_insert_last.1": 9,
+                      "pton_common.0": 18, "pton_common.1": 17, "strtoul.0": v + 2, "strtoul.1": v + 2,
+                      "ares_llist_clear.0": tok + 2, "harness.0": 13, "harness.1": v + 1, "harness.2": 3,
+                      "memcpy.0": max(n + 1, {"sortlist": 25, "nameserver": 21}.get(key, 0), 21 if pre else 0), "vp_realloc.0": 50, "ares_memeq_ci.0": v + 1, "strcasecmp.0": 9,
+                      "ares_buf_fetch_str_dup.0": v + 1, "str_eq.0": 5, "domains_eq.0": 3, "sortlist_eq.0": 3, "servers_eq.0": 4,
+                      "harness.3": 5, "harness.4": 4, "harness.5": 4, "ares_free_array.0": 3})
+            J.append(dict(name="c15_resolvline_%s_pre%d" % (kn, pre), harness="resolvline.c",
+                          defines=["-DMODE=0", "-DOWN=%d" % own, "-DV=%d" % v, "-DPRE=%d" % pre] + kd, real=RL_LIB,
+                          support=SUP + ["pton_stub.c"], unwind=n + 2, unwindset=us(u), leak=True, kf_group="c15_resolvline", **rfp,
+                          # value[512] is symbolic anyway: keep it out of element-wise field sensitivity (a symbolic index into it
+                          # would be a 512-way case split); option[32] and the other small buffers stay element-wise
+                          cbmc=["--max-field-sensitivity-array-size", "64"],
+                          bound="one real ares_sysconfig_parse_resolv_line on '%s' + blank + %d ARBITRARY bytes%s from %s sysconfig" %
+                                (key, v, " (no blank: one option token)" if key == "options" else "",
+                                 ("a freshly initialised", "a populated (1 domain, lookups, 1 server, 1 sortlist entry, arbitrary scalars)")[pre])))
+    v = v0
+    # MODE 1: metamorphic, junk line next to one concrete valid line of every directive kind (two real runs)
+    for key, own in RL_KEYS:
+        if own != 0:
+            continue
+        for order in ((0,) if (tier == "quick" and key != "nameservers") else (0, 1)):
+            kn = {"#": "comment"}.get(key, key)
+            J.append(dict(name="c15_resolvline_meta_%s_%s" % (kn, ("junkfirst", "junklast")[order]), harness="resolvline.c",
+                          defines=["-DMODE=1", "-DOWN=0", "-DV=%d" % v, "-DORDER=%d" % order, "-DKW=" + q(key)], real=RL_LIB,
+                          support=SUP + ["pton_stub.c"], unwind=26, leak=True, kf_group="c15_resolvline", **rfp,
+                          unwindset=us({"ares_array_insertdata_last.0": 9, "ares_array_insert_last.1": 9, "pton_common.0": 18,
+                                        "pton_common.1": 17}),
+                          bound="run A = ['%s' line with %d ARBITRARY value bytes %s one concrete valid line of every directive kind "
+                                "(search/lookup/nameserver/sortlist/options)], run B = the concrete lines alone; real "
+                                "ares_sysconfig_parse_resolv_line per line" % (key, v, ("followed by", "preceded by")[order])))
+    return J
+
+
 def jobs(tier, seed):
     J = []
     J += options_jobs(tier)
+    J += nameserver_jobs(tier)
+    J += sortlist_jobs(tier)
+    J += pton_jobs(tier)
+    J += resolvline_jobs(tier)
     return J
